@@ -1,5 +1,6 @@
-(* Proofs/ArpSpoof.v — proofs about the event-system model of the ARP spoofer (C13). *)
-From PV Require Import Base.Prelude Model.ArpSpoof Spec.ArpSpoof.
+(* Proofs/ArpSpoof.v — proofs about the event-system model of the ARP spoofer (C13):
+   hunt list facts, writes, confinement with the public API, the bound on frames already decided. *)
+From PV Require Import Base.Prelude Base.Slice Model.ArpSpoof Spec.ArpSpoof.
 Open Scope N_scope.
 
 (* ---------------------------------------------------------------- *)
@@ -55,237 +56,91 @@ Proof. unfold hunt_has. rewrite existsb_app. simpl. rewrite orb_false_r. reflexi
 
 Lemma restore_not_forged c m : cfg_ok c -> forged c (restore c m) = false.
 Proof.
-  unfold cfg_ok, forged, restore. simpl. intros H.
+  unfold cfg_ok, forged, restore. simpl. intros [H _].
   destruct (router_mac c =? host_mac c) eqn:E; [exfalso; apply H; lia|]. apply andb_false_r.
 Qed.
 
 Lemma announce_forged c m : forged c (announce c m) = true.
-Proof. unfold forged, announce. simpl. rewrite !N.eqb_refl. reflexivity. Qed.
+Proof. unfold forged, announce, announce_ip. simpl. rewrite !N.eqb_refl. reflexivity. Qed.
 
-(* ---------------------------------------------------------------- *)
-(* C13_confined: one step, any state *)
-
-Lemma wake_out c s i s' out f :
-  wake c s i = (s', out) -> In f out ->
-  exists lp, nth_error (loops s) i = Some lp /\ alive lp = true /\ closed s = false /\
-    ((hunted s (amac (laddr lp)) = true /\ f = announce c (amac (laddr lp)) /\ s' = s)
-     \/ (hunted s (amac (laddr lp)) = false /\ f = restore c (amac (laddr lp))
-         /\ s' = set_loops s (kill i (loops s)))).
+Lemma request_to_not_forged c d ip : cfg_ok c -> forged c (request_to c d ip) = false.
 Proof.
-  unfold wake. intros H Hin.
-  destruct (nth_error (loops s) i) as [lp|] eqn:Hn; [|inversion H; subst; contradiction].
-  destruct (alive lp) eqn:Ha; simpl in H; [|inversion H; subst; contradiction].
-  exists lp. split; auto. split; auto.
-  destruct (hunt_find (amac (laddr lp)) (hunt s)) as [t|] eqn:Hf;
-    destruct (closed s) eqn:Hc; inversion H; subst; try contradiction;
-    destruct Hin as [Hin|[]]; subst f; (split; [reflexivity|]).
-  - left. apply hunt_find_some in Hf as [Hf1 Hf2]. rewrite Hf2. split; auto.
-    unfold hunted. apply hunt_has_spec. exists t. auto.
-  - right. apply hunt_find_none in Hf. auto.
+  unfold cfg_ok, forged, request_to. simpl. intros [_ [H _]].
+  destruct (host_ip c =? router_ip c) eqn:E; [exfalso; apply H; lia|]. reflexivity.
 Qed.
 
-Lemma confined_step c s e s' out f :
-  cfg_ok c -> step c s e = (s', out) -> In f out -> forged c f = true ->
-  hunted s (fedst f) = true.
+Lemma probe_frame_not_forged c ip : cfg_ok c -> forged c (probe_frame c ip) = false.
 Proof.
-  intros Hc Hs Hin Hf. destruct e; simpl in Hs.
-  - unfold start_hunt in Hs. destruct (hunt_has _ _); inversion Hs; subst; contradiction.
-  - inversion Hs; subst; contradiction.
-  - unfold stop_hunt in Hs. inversion Hs; subst; contradiction.
-  - inversion Hs; subst; contradiction.
-  - destruct (wake_out _ _ _ _ _ _ Hs Hin) as [lp [_ [_ [_ [[Ht [Hfe _]]|[_ [Hfe _]]]]]]].
-    + subst f. simpl. exact Ht.
-    + subst f. rewrite restore_not_forged in Hf by auto. discriminate.
-  - unfold rx_arp in Hs.
-    destruct (closed s) eqn:Hclo; [inversion Hs; subst; contradiction|].
-    destruct (classify p) eqn:Hcl; try (inversion Hs; subst; contradiction).
-    + destruct (hunt_has (psmac p) (hunt s) && (ptip p =? router_ip c)) eqn:Hh;
-        inversion Hs; subst; try contradiction.
-      destruct Hin as [Hin|[]]; subst f. simpl. unfold hunted.
-      apply andb_true_iff in Hh. tauto.
-    + destruct (offer_of (psmac p) (offers s)) as [o|] eqn:Ho; [|inversion Hs; subst; contradiction].
-      destruct (negb (o =? ptip p) && (in_lan c (ptip p) && negb (ptip p =? router_ip c))) eqn:Hd;
-        inversion Hs; subst; try contradiction.
-      destruct Hin as [Hin|[]]; subst f.
-      (* the probe-reject never carries the router's address, so it is not forged *)
-      unfold forged, probe_reject in Hf. simpl in Hf. apply andb_true_iff in Hf as [Hf1 _].
-      rewrite Hf1 in Hd. simpl in Hd. rewrite !andb_false_r in Hd. discriminate.
-  - inversion Hs; subst; contradiction.
-Qed.
-
-(* over all event sequences: every position of every run *)
-Lemma trace_in c s evs x :
-  In x (trace c s evs) -> exists s' , step c (fst (fst x)) (snd (fst x)) = (s', snd x).
-Proof.
-  revert s. induction evs as [|e r IH]; intros s Hin; simpl in Hin; [contradiction|].
-  destruct (step c s e) as [s1 out] eqn:Hs. destruct Hin as [Hin|Hin].
-  - subst x. simpl. eauto.
-  - eapply IH; eauto.
-Qed.
-
-Theorem confined : forall c evs s e out f,
-  cfg_ok c ->
-  In (s, e, out) (trace c init_state evs) -> In f out -> forged c f = true ->
-  hunted s (fedst f) = true.
-Proof.
-  intros c evs s e out f Hc Hin Hf Hfo.
-  apply trace_in in Hin as [s' Hs]. simpl in Hs. eapply confined_step; eauto.
-Qed.
-
-Definition wit_cfg : cfg := mkCfg 366503875925 439804651110 3232235531 3232235520 24.
-  (* host 00:55:55:55:55:55, router 00:66:66:66:66:66 192.168.0.11, LAN 192.168.0.0/24 *)
-Definition wit_m3 : mac := 2199023255555.  (* 02:00:00:00:00:03 *)
-
-(* non-vacuity of confined: a run that does emit forged frames (to hunted hosts), and the history that
-   defeated the code before the repair of K1 (probe for the router address with another offer): now silent *)
-Definition wit_m1 : mac := 2199023255553.
-Definition wit_hunt_run : list event :=
-  [StartHunt (mkAddr wit_m1 3232235522); Wake 0;
-   RxArp (mkPkt 1 wit_m1 wit_m1 3232235522 0 3232235531)].
-
-Example confined_nonvacuous :
-  cfg_ok wit_cfg /\
-  outputs wit_cfg init_state wit_hunt_run =
-    [[]; [announce wit_cfg wit_m1]; [mkFrame 2 wit_m1 (host_mac wit_cfg) (router_ip wit_cfg) wit_m1 3232235522]] /\
-  outputs wit_cfg init_state
-    [SetOffer wit_m3 (Some 3232235522); RxArp (mkPkt 1 wit_m3 wit_m3 0 0 3232235531);
-     RxArp (mkPkt 1 wit_m3 wit_m3 0 0 3232235523)] =
-    [[]; []; [probe_reject wit_cfg (mkPkt 1 wit_m3 wit_m3 0 0 3232235523)]].
-Proof. split; [unfold cfg_ok; simpl; lia|]. split; vm_compute; reflexivity. Qed.
-
-(* ---------------------------------------------------------------- *)
-(* C13_start_idempotent *)
-
-Theorem start_idempotent : forall c s a,
-  hunted s (amac a) = true -> step c s (StartHunt a) = (s, []).
-Proof. intros c s a H. simpl. unfold start_hunt. unfold hunted in H. rewrite H. reflexivity. Qed.
-
-(* and a StartHunt of a MAC that is not hunted starts exactly one loop for it *)
-Theorem start_fresh : forall c s a,
-  hunted s (amac a) = false ->
-  exists s', step c s (StartHunt a) = (s', []) /\ hunted s' (amac a) = true /\
-             loops s' = loops s ++ [mkLoop a true] /\ closed s' = closed s.
-Proof.
-  intros c s a H. simpl. unfold start_hunt. unfold hunted in H. rewrite H.
-  eexists. split; [reflexivity|]. simpl. split; auto.
-  unfold hunted. simpl. rewrite hunt_has_app, N.eqb_refl. apply orb_true_r.
+  unfold cfg_ok, forged, probe_frame, IP4_ZERO. simpl. intros [_ [_ H]].
+  destruct (0 =? router_ip c) eqn:E; [exfalso; apply H; lia|]. reflexivity.
 Qed.
 
 (* ---------------------------------------------------------------- *)
-(* receive path = spec, for every state and packet *)
+(* the write primitive *)
 
-Lemma link_local_zero : link_local 0 = false.
-Proof. reflexivity. Qed.
+Lemma wr_cases s f : (wr s f = (s, [f], true) /\ failn s = O) \/
+                     (exists k, failn s = S k /\ wr s f = (set_failn s k, [], false)).
+Proof. unfold wr. destruct (failn s) as [|k] eqn:E; [left; auto | right; exists k; auto]. Qed.
 
-Theorem rx_spec : forall c s p,
-  step c s (RxArp p) =
-  (s, if closed s then []
-      else if sp_is_probe p
-      then (if sp_reject_cond c (offer_of (psmac p) (offers s)) p then [probe_reject c p] else [])
-      else (if sp_asks_router c p && hunted s (psmac p) then [spoof_reply c p] else [])).
+Lemma wr_out s f s' out ok g : wr s f = (s', out, ok) -> In g out -> g = f.
 Proof.
-  intros c s p. simpl. unfold rx_arp. destruct (closed s); [reflexivity|].
-  unfold classify, sp_is_probe, sp_reject_cond, sp_is_probe, sp_asks_router, hunted, IP4_ZERO.
-  destruct (psip p =? 0) eqn:Es.
-  - assert (Hs : psip p = 0) by lia. rewrite Hs in *. rewrite link_local_zero. simpl.
-    destruct (link_local (ptip p)) eqn:Elt; simpl.
-    + destruct (pop p =? 1), (ptip p =? 0); simpl; try reflexivity;
-        rewrite ?andb_false_r; reflexivity.
-    + destruct (pop p =? 2) eqn:E2.
-      * assert (pop p =? 1 = false) by lia. rewrite H. simpl. reflexivity.
-      * destruct (pop p =? 1) eqn:E1; simpl; [|reflexivity].
-        destruct (0 =? ptip p) eqn:Et.
-        -- assert (ptip p =? 0 = true) by lia. rewrite H. simpl. rewrite ?andb_false_r. reflexivity.
-        -- assert (ptip p =? 0 = false) by lia. rewrite H. simpl.
-           destruct (offer_of (psmac p) (offers s)); [rewrite <- andb_assoc; destruct (_ && _)|]; reflexivity.
-  - rewrite !andb_false_r. simpl.
-    destruct (link_local (psip p)) eqn:Els; simpl.
-    + rewrite ?andb_false_r. reflexivity.
-    + destruct (link_local (ptip p)) eqn:Elt; simpl.
-      * rewrite ?andb_false_r. reflexivity.
-      * destruct (pop p =? 2) eqn:E2.
-        -- assert (pop p =? 1 = false) by lia. rewrite H. reflexivity.
-        -- destruct (pop p =? 1) eqn:E1; simpl; [|reflexivity].
-           destruct (psip p =? ptip p) eqn:Est; simpl.
-           ++ rewrite ?andb_false_r. reflexivity.
-           ++ rewrite !andb_true_r. rewrite andb_comm. destruct (_ && _); reflexivity.
+  intros H Hin. destruct (wr_cases s f) as [[E _]|[k [_ E]]]; rewrite E in H; inversion H; subst.
+  - destruct Hin as [Hin|[]]; auto.
+  - contradiction.
+Qed.
+
+Lemma wr_state s f s' out ok :
+  wr s f = (s', out, ok) ->
+  hunt s' = hunt s /\ loops s' = loops s /\ closed s' = closed s /\ offers s' = offers s.
+Proof.
+  intros H. destruct (wr_cases s f) as [[E _]|[k [_ E]]]; rewrite E in H; inversion H; subst; simpl; auto.
+Qed.
+
+Lemma wr2_out s f g : In g (snd (wr2 s f)) -> g = f.
+Proof.
+  unfold wr2. destruct (wr s f) as [[s1 o] ok] eqn:E. simpl. eapply wr_out; eauto.
+Qed.
+
+Lemma wr2_state s f :
+  hunt (fst (wr2 s f)) = hunt s /\ loops (fst (wr2 s f)) = loops s /\
+  closed (fst (wr2 s f)) = closed s /\ offers (fst (wr2 s f)) = offers s.
+Proof. unfold wr2. destruct (wr s f) as [[s1 o] ok] eqn:E. simpl. eapply wr_state; eauto. Qed.
+
+(* Scan and WhoIs only ever send plain requests from our own address, and touch nothing but failn *)
+Lemma scan_go_spec c ips : forall s,
+  (forall g, In g (snd (scan_go c s ips)) -> exists ip, g = request_to c MAC_BCAST ip) /\
+  hunt (fst (scan_go c s ips)) = hunt s /\ loops (fst (scan_go c s ips)) = loops s /\
+  closed (fst (scan_go c s ips)) = closed s /\ offers (fst (scan_go c s ips)) = offers s.
+Proof.
+  induction ips as [|ip r IH]; intros s; simpl; [repeat split; auto; intros g []|].
+  destruct ((ip =? router_ip c) || (ip =? host_ip c)); [apply IH|].
+  destruct (closed s) eqn:Hc; [simpl; repeat split; auto; intros g []|].
+  destruct (wr s (request_to c MAC_BCAST ip)) as [[s1 o] ok] eqn:Hw.
+  destruct (wr_state _ _ _ _ _ Hw) as [W1 [W2 [W3 W4]]].
+  destruct ok.
+  - destruct (scan_go c s1 r) as [s2 o2] eqn:Hs. destruct (IH s1) as [I0 [I1 [I2 [I3 I4]]]].
+    rewrite Hs in *. simpl in *. repeat split; try congruence.
+    intros g Hin. apply in_app_or in Hin as [Hin|Hin]; [exists ip; eapply wr_out; eauto | auto].
+  - simpl. repeat split; auto; try congruence. intros g Hin. exists ip. eapply wr_out; eauto.
+Qed.
+
+Lemma whois_go_spec c ip n : forall s,
+  (forall g, In g (snd (whois_go c s ip n)) -> g = request_to c MAC_BCAST ip) /\
+  hunt (fst (whois_go c s ip n)) = hunt s /\ loops (fst (whois_go c s ip n)) = loops s /\
+  closed (fst (whois_go c s ip n)) = closed s /\ offers (fst (whois_go c s ip n)) = offers s.
+Proof.
+  induction n as [|n IH]; intros s; simpl; [repeat split; auto; intros g []|].
+  destruct (wr s (request_to c MAC_BCAST ip)) as [[s1 o] ok] eqn:Hw.
+  destruct (wr_state _ _ _ _ _ Hw) as [W1 [W2 [W3 W4]]].
+  destruct ok.
+  - destruct (whois_go c s1 ip n) as [s2 o2] eqn:Hs. destruct (IH s1) as [I0 [I1 [I2 [I3 I4]]]].
+    rewrite Hs in *. simpl in *. repeat split; try congruence.
+    intros g Hin. apply in_app_or in Hin as [Hin|Hin]; [eapply wr_out; eauto | auto].
+  - simpl. repeat split; auto. intros g Hin. eapply wr_out; eauto.
 Qed.
 
 (* ---------------------------------------------------------------- *)
-(* invariants along runs *)
-
-Lemma final_app c s a b : final c s (a ++ b) = final c (final c s a) b.
-Proof. revert s. induction a as [|e r IH]; intros s; simpl; auto. Qed.
-
-Lemma final_inv (P : state -> Prop) (ok : event -> bool) c :
-  (forall s e, P s -> ok e = true -> P (fst (step c s e))) ->
-  forall evs s, P s -> forallb ok evs = true -> P (final c s evs).
-Proof.
-  intros Hstep evs. induction evs as [|e r IH]; intros s Hs Hok; simpl in *; auto.
-  apply andb_true_iff in Hok as [H1 H2]. apply IH; auto.
-Qed.
-
-Lemma trace_inv (P : state -> Prop) (ok : event -> bool) c :
-  (forall s e, P s -> ok e = true -> P (fst (step c s e))) ->
-  forall evs s x, P s -> forallb ok evs = true -> In x (trace c s evs) -> P (fst (fst x)).
-Proof.
-  intros Hstep evs. induction evs as [|e r IH]; intros s x Hs Hok Hin; simpl in *; [contradiction|].
-  apply andb_true_iff in Hok as [H1 H2].
-  destruct (step c s e) as [s1 out] eqn:Est. destruct Hin as [Hin|Hin].
-  - subst x. exact Hs.
-  - apply (IH s1 x); auto. specialize (Hstep s e Hs H1). rewrite Est in Hstep. exact Hstep.
-Qed.
-
-(* what each step does to closed / hunt / loops *)
-
-Lemma wake_closed c s i : closed (fst (wake c s i)) = closed s.
-Proof.
-  unfold wake. destruct (nth_error (loops s) i) as [lp|]; auto.
-  destruct (alive lp); simpl; auto.
-  destruct (hunt_find _ _); destruct (closed s) eqn:E; simpl; auto.
-Qed.
-
-Lemma wake_hunt c s i : hunt (fst (wake c s i)) = hunt s.
-Proof.
-  unfold wake. destruct (nth_error (loops s) i) as [lp|]; auto.
-  destruct (alive lp); simpl; auto.
-  destruct (hunt_find _ _); destruct (closed s); simpl; auto.
-Qed.
-
-Lemma rx_state c s p : fst (rx_arp c s p) = s.
-Proof.
-  unfold rx_arp. destruct (closed s); auto. destruct (classify p); auto.
-  - destruct (_ && _); auto.
-  - destruct (offer_of _ _); auto. destruct (_ && _); auto.
-Qed.
-
-Lemma step_closed c s e : is_close e = false -> closed (fst (step c s e)) = closed s.
-Proof.
-  destruct e; simpl; intros H; try discriminate; auto.
-  - unfold start_hunt. destruct (hunt_has _ _); auto.
-  - apply wake_closed.
-  - rewrite rx_state. auto.
-Qed.
-
-Lemma step_closed_mono c s e : closed s = true -> closed (fst (step c s e)) = true.
-Proof.
-  intros H. destruct (is_close e) eqn:E.
-  - destruct e; try discriminate. reflexivity.
-  - rewrite step_closed; auto.
-Qed.
-
-Lemma step_unhunted c s e m :
-  is_start_of m e = false -> hunted s m = false -> hunted (fst (step c s e)) m = false.
-Proof.
-  unfold hunted. destruct e; simpl; intros H Hh; auto.
-  - unfold start_hunt. destruct (hunt_has (amac a) (hunt s)); simpl; auto.
-    rewrite hunt_has_app, Hh, H. reflexivity.
-  - destruct (N.eq_dec m m0) as [->|Hne].
-    + apply hunt_has_del_same.
-    + rewrite hunt_has_del_other; auto.
-  - rewrite wake_hunt. auto.
-  - rewrite rx_state. auto.
-Qed.
+(* list plumbing for the loop table *)
 
 Lemma nth_error_app_l {A} (l : list A) x i y : nth_error l i = Some y -> nth_error (l ++ [x]) i = Some y.
 Proof. intros H. rewrite nth_error_app1; auto. apply nth_error_Some. congruence. Qed.
@@ -300,265 +155,314 @@ Proof.
   revert i. induction l as [|y ys IH]; intros [|i] H; simpl in *; try discriminate; auto.
 Qed.
 
-Lemma kill_other l i j : i <> j -> nth_error (kill i l) j = nth_error l j.
+Lemma set_pc_other l i j p : i <> j -> nth_error (set_pc i p l) j = nth_error l j.
 Proof.
-  intros H. unfold kill. destruct (nth_error l i); auto. apply nth_error_set_nth_neq; auto.
+  intros H. unfold set_pc. destruct (nth_error l i); auto. apply nth_error_set_nth_neq; auto.
 Qed.
 
-Lemma kill_same l i lp : nth_error l i = Some lp -> nth_error (kill i l) i = Some (mkLoop (laddr lp) false).
-Proof. intros H. unfold kill. rewrite H. eapply nth_error_set_nth_eq; eauto. Qed.
+Lemma set_pc_same l i lp p : nth_error l i = Some lp -> nth_error (set_pc i p l) i = Some (mkLoop (laddr lp) p).
+Proof. intros H. unfold set_pc. rewrite H. eapply nth_error_set_nth_eq; eauto. Qed.
 
-Lemma wake_loops_other c s i j :
-  i <> j -> nth_error (loops (fst (wake c s i))) j = nth_error (loops s) j.
+Definition count {A} (P : A -> bool) (l : list A) : nat := List.length (filter P l).
+Definition b2n (b : bool) : nat := if b then 1%nat else 0%nat.
+
+Lemma count_set_nth {A} (P : A -> bool) l i v x :
+  nth_error l i = Some x -> (count P (set_nth i v l) + b2n (P x) = count P l + b2n (P v))%nat.
 Proof.
-  intros Hne. unfold wake. destruct (nth_error (loops s) i) as [lp|] eqn:E; auto.
-  destruct (alive lp); simpl; auto.
-  destruct (hunt_find _ _); destruct (closed s); simpl; auto; apply kill_other; auto.
+  unfold count. revert i. induction l as [|y ys IH]; intros [|i] H; simpl in *; try discriminate.
+  - inversion H; subst. destruct (P x), (P v); simpl; lia.
+  - specialize (IH i H). destruct (P y); simpl; lia.
+Qed.
+
+Lemma count_app {A} (P : A -> bool) l x : count P (l ++ [x]) = (count P l + b2n (P x))%nat.
+Proof. unfold count. rewrite filter_app, app_length. simpl. destruct (P x); reflexivity. Qed.
+
+Lemma count_set_pc (P : loop -> bool) l i lp p :
+  nth_error l i = Some lp ->
+  (count P (set_pc i p l) + b2n (P lp) = count P l + b2n (P (mkLoop (laddr lp) p)))%nat.
+Proof. intros H. unfold set_pc. rewrite H. apply count_set_nth. exact H. Qed.
+
+(* ---------------------------------------------------------------- *)
+(* the receive path, decoded packet *)
+
+Lemma rx_arp_cases c s p :
+  rx_arp c s p = (s, []) \/
+  (closed s = false /\ hunt_has (psmac p) (hunt s) = true /\ ptip p = router_ip c /\
+   rx_arp c s p = wr2 s (spoof_reply c p)) \/
+  (closed s = false /\ ptip p <> router_ip c /\ rx_arp c s p = wr2 s (probe_reject c p)).
+Proof.
+  unfold rx_arp. destruct (closed s) eqn:Hc; auto.
+  destruct (classify p); auto.
+  - destruct (hunt_has (psmac p) (hunt s) && (ptip p =? router_ip c)) eqn:E; auto.
+    apply andb_true_iff in E as [E1 E2]. right; left. repeat split; auto. lia.
+  - destruct (offer_of _ _); auto.
+    destruct (negb (i =? ptip p) && (in_lan c (ptip p) && negb (ptip p =? router_ip c))) eqn:E; auto.
+    right; right. apply andb_true_iff in E as [_ E]. apply andb_true_iff in E as [_ E].
+    repeat split; auto. apply negb_true_iff in E. lia.
+Qed.
+
+Lemma rx_arp_state c s p :
+  hunt (fst (rx_arp c s p)) = hunt s /\ loops (fst (rx_arp c s p)) = loops s /\
+  closed (fst (rx_arp c s p)) = closed s /\ offers (fst (rx_arp c s p)) = offers s.
+Proof.
+  destruct (rx_arp_cases c s p) as [E|[[_ [_ [_ E]]]|[_ [_ E]]]]; rewrite E; simpl; auto; apply wr2_state.
+Qed.
+
+(* every forged frame the receive path emits goes to a hunted MAC *)
+Lemma rx_arp_confined c s p f :
+  In f (snd (rx_arp c s p)) -> forged c f = true -> hunted s (fedst f) = true.
+Proof.
+  intros Hin Hf. destruct (rx_arp_cases c s p) as [E|[[_ [Hh [_ E]]]|[_ [Hne E]]]]; rewrite E in Hin.
+  - contradiction.
+  - apply wr2_out in Hin. subst f. exact Hh.
+  - apply wr2_out in Hin. subst f. unfold forged, probe_reject in Hf. simpl in Hf.
+    apply andb_true_iff in Hf as [Hf _]. exfalso. apply Hne. lia.
+Qed.
+
+
+(* ---------------------------------------------------------------- *)
+(* raw frames: ProcessPacket is total; a frame is ignored or is exactly its decoded packet *)
+
+Ltac dnegb := match goal with |- context [if negb ?b then _ else _] => destruct b; simpl end.
+
+Lemma arp_is_valid_shape l :
+  arp_is_valid (of_bytes l) = Ok tt \/ exists e, arp_is_valid (of_bytes l) = Err e.
+Proof.
+  unfold arp_is_valid, ARP_LEN.
+  destruct (Nat.ltb_spec (len (of_bytes l)) 28) as [Hlt|Hge]; [right; eauto|].
+  assert (Hc : cap (of_bytes l) = List.length l) by reflexivity.
+  assert (Hl : len (of_bytes l) = List.length l) by reflexivity.
+  rewrite be16_at_ok by lia. cbn [bind]. dnegb; [|right; eauto].
+  rewrite be16_at_ok by lia. cbn [bind]. dnegb; [|right; eauto].
+  rewrite idx_ok by lia. cbn [bind]. dnegb; [|right; eauto].
+  rewrite idx_ok by lia. cbn [bind]. dnegb; [left; reflexivity|right; eauto].
+Qed.
+
+Lemma arp_is_valid_len l : arp_is_valid (of_bytes l) = Ok tt -> (28 <= List.length l)%nat.
+Proof.
+  unfold arp_is_valid, ARP_LEN.
+  destruct (Nat.ltb_spec (len (of_bytes l)) 28) as [Hlt|Hge]; [discriminate|auto].
+Qed.
+
+Definition decoded (m : mac) (l : bytes) : arp_pkt :=
+  mkPkt (be16 (nth 6 l 0) (nth 7 l 0)) m
+        (N_of_bytes (firstn 6 (skipn 8 l))) (N_of_bytes (firstn 4 (skipn 14 l)))
+        (N_of_bytes (firstn 6 (skipn 18 l))) (N_of_bytes (firstn 4 (skipn 24 l))).
+
+Lemma arp_decode_ok m l : (28 <= List.length l)%nat -> arp_decode m (of_bytes l) = Ok (decoded m l).
+Proof.
+  intros H. unfold arp_decode.
+  assert (Hc : cap (of_bytes l) = List.length l) by reflexivity.
+  rewrite be16_at_ok by lia. cbn [bind].
+  rewrite !sl_ok by lia. cbn [bind]. reflexivity.
+Qed.
+
+Theorem process_raw_total : forall c s et b,
+  (exists e, process_raw c s et b = Err e) \/ (exists p, process_raw c s et b = Ok (rx_arp c s p)).
+Proof.
+  intros c s et b. unfold process_raw. destruct (negb (et =? ETH_P_ARP)); [left; eauto|].
+  destruct (arp_is_valid_shape b) as [Hv|[e Hv]]; rewrite Hv; simpl; [|left; eauto].
+  rewrite (arp_decode_ok 0 b (arp_is_valid_len b Hv)). simpl. right; eauto.
+Qed.
+
+Corollary process_raw_no_panic : forall c s et b,
+  process_raw c s et b <> Panic /\ process_raw c s et b <> Fuel.
+Proof.
+  intros c s et b. destruct (process_raw_total c s et b) as [[e H]|[p H]]; rewrite H; split; discriminate.
+Qed.
+
+Lemma rx_raw_cases c s et b :
+  step c s (RxRaw et b) = (s, []) \/ exists p, step c s (RxRaw et b) = rx_arp c s p.
+Proof.
+  simpl. destruct (process_raw_total c s et b) as [[e H]|[p H]]; rewrite H; [left; auto|right; eauto].
+Qed.
+
+(* ---------------------------------------------------------------- *)
+(* what each step does to hunt / closed / loops *)
+
+Lemma lookup_state s i : hunt (fst (lookup s i)) = hunt s /\ closed (fst (lookup s i)) = closed s.
+Proof.
+  unfold lookup. destruct (nth_error (loops s) i) as [lp|]; auto. destruct (lpc lp); auto.
+Qed.
+Lemma check_state c s i : hunt (fst (check c s i)) = hunt s /\ closed (fst (check c s i)) = closed s.
+Proof.
+  unfold check. destruct (nth_error (loops s) i) as [lp|]; auto. destruct (lpc lp); auto.
+Qed.
+Lemma send_state s i : hunt (fst (send s i)) = hunt s /\ closed (fst (send s i)) = closed s.
+Proof.
+  unfold send. destruct (nth_error (loops s) i) as [lp|]; auto. destruct (lpc lp); auto.
+  destruct (wr s f) as [[s1 o] ok] eqn:E. destruct (wr_state _ _ _ _ _ E) as [H1 [_ [H3 _]]]. simpl. auto.
+Qed.
+
+Lemma step_hunt_closed c s e :
+  match e with StartHunt _ | StopHunt _ | Close => True
+  | _ => hunt (fst (step c s e)) = hunt s /\ closed (fst (step c s e)) = closed s end.
+Proof.
+  destruct e; simpl; auto.
+  - apply lookup_state. - apply check_state. - apply send_state.
+  - destruct (rx_arp_state c s p) as [H1 [_ [H3 _]]]; auto.
+  - destruct (rx_raw_cases c s ethertype payload) as [E|[p E]]; simpl in E; rewrite E; auto.
+    destruct (rx_arp_state c s p) as [H1 [_ [H3 _]]]; auto.
+  - destruct (wr2_state s (request_to c MAC_BCAST ip)) as [H1 [_ [H3 _]]]; auto.
+  - destruct (wr2_state s (request_to c dst ip)) as [H1 [_ [H3 _]]]; auto.
+  - destruct (wr2_state s (probe_frame c ip)) as [H1 [_ [H3 _]]]; auto.
+  - destruct (wr2_state s (announce_ip c dst ip)) as [H1 [_ [H3 _]]]; auto.
+  - destruct (wr2_state s (request_raw dst sender target)) as [H1 [_ [H3 _]]]; auto.
+  - destruct (wr2_state s (reply_raw dst sender target)) as [H1 [_ [H3 _]]]; auto.
+  - destruct (scan_go_spec c (scan_ips c) s) as [_ [H1 [_ [H3 _]]]]; auto.
+  - destruct (whois_go_spec c ip (Nat.min tries 3) s) as [_ [H1 [_ [H3 _]]]]; auto.
+Qed.
+
+Lemma step_closed c s e : is_close e = false -> closed (fst (step c s e)) = closed s.
+Proof.
+  intros H. pose proof (step_hunt_closed c s e) as G. destruct e; try (apply G); try discriminate; simpl.
+  - unfold start_hunt. destruct (hunt_has _ _); auto.
+  - reflexivity.
+Qed.
+
+Lemma step_closed_mono c s e : closed s = true -> closed (fst (step c s e)) = true.
+Proof.
+  intros H. destruct (is_close e) eqn:E.
+  - destruct e; try discriminate. reflexivity.
+  - rewrite step_closed; auto.
+Qed.
+
+Lemma step_unhunted c s e m :
+  is_start_of m e = false -> hunted s m = false -> hunted (fst (step c s e)) m = false.
+Proof.
+  unfold hunted. intros H Hh. pose proof (step_hunt_closed c s e) as G.
+  destruct e; try (destruct G as [G _]; rewrite G; exact Hh); simpl in *.
+  - unfold start_hunt. destruct (hunt_has (amac a) (hunt s)); simpl; auto.
+    rewrite hunt_has_app, Hh, H. reflexivity.
+  - destruct (N.eq_dec m m0) as [->|Hne].
+    + apply hunt_has_del_same.
+    + rewrite hunt_has_del_other; auto.
+  - exact Hh.
+Qed.
+
+(* the loop table: only loop i's own events move loop i; nobody else's events change its address *)
+Lemma step_loops_shape c s e :
+  (exists i p, is_loop_event i e = true /\ loops (fst (step c s e)) = set_pc i p (loops s)) \/
+  (exists a, loops (fst (step c s e)) = loops s ++ [mkLoop a PTop]) \/
+  loops (fst (step c s e)) = loops s.
+Proof.
+  destruct e; simpl; auto.
+  - unfold start_hunt. destruct (hunt_has _ _); simpl; eauto.
+  - unfold lookup. destruct (nth_error (loops s) i) as [lp|]; auto. destruct (lpc lp); auto; simpl;
+      left; eexists i, _; rewrite Nat.eqb_refl; eauto.
+  - unfold check. destruct (nth_error (loops s) i) as [lp|]; auto. destruct (lpc lp); auto; simpl.
+    left; eexists i, _; rewrite Nat.eqb_refl; eauto.
+  - unfold send. destruct (nth_error (loops s) i) as [lp|]; auto. destruct (lpc lp); auto.
+    destruct (wr s f) as [[s1 o] ok] eqn:E. destruct (wr_state _ _ _ _ _ E) as [_ [H2 _]]. simpl.
+    left; eexists i, _; rewrite Nat.eqb_refl, H2; eauto.
+  - destruct (rx_arp_state c s p) as [_ [H2 _]]; auto.
+  - destruct (rx_raw_cases c s ethertype payload) as [E|[p E]]; simpl in E; rewrite E; auto.
+    destruct (rx_arp_state c s p) as [_ [H2 _]]; auto.
+  - destruct (wr2_state s (request_to c MAC_BCAST ip)) as [_ [H2 _]]; auto.
+  - destruct (wr2_state s (request_to c dst ip)) as [_ [H2 _]]; auto.
+  - destruct (wr2_state s (probe_frame c ip)) as [_ [H2 _]]; auto.
+  - destruct (wr2_state s (announce_ip c dst ip)) as [_ [H2 _]]; auto.
+  - destruct (wr2_state s (request_raw dst sender target)) as [_ [H2 _]]; auto.
+  - destruct (wr2_state s (reply_raw dst sender target)) as [_ [H2 _]]; auto.
+  - destruct (scan_go_spec c (scan_ips c) s) as [_ [_ [H2 _]]]; auto.
+  - destruct (whois_go_spec c ip (Nat.min tries 3) s) as [_ [_ [H2 _]]]; auto.
+Qed.
+
+Lemma is_loop_event_inj i j e : is_loop_event i e = true -> is_loop_event j e = true -> i = j.
+Proof.
+  destruct e; simpl; try discriminate; intros H1 H2; apply Nat.eqb_eq in H1, H2; congruence.
 Qed.
 
 Lemma step_loop_kept c s e i lp :
-  is_wake_of i e = false -> nth_error (loops s) i = Some lp -> nth_error (loops (fst (step c s e))) i = Some lp.
+  is_loop_event i e = false -> nth_error (loops s) i = Some lp ->
+  nth_error (loops (fst (step c s e))) i = Some lp.
 Proof.
-  destruct e; simpl; intros H Hl; auto.
-  - unfold start_hunt. destruct (hunt_has _ _); simpl; auto. apply nth_error_app_l; auto.
-  - rewrite wake_loops_other; auto. intro. subst. rewrite Nat.eqb_refl in H. discriminate.
-  - rewrite rx_state. auto.
+  intros H Hl. destruct (step_loops_shape c s e) as [[j [p [Hj E]]]|[[a E]|E]]; rewrite E; auto.
+  - rewrite set_pc_other; auto. intro. subst. congruence.
+  - apply nth_error_app_l; auto.
 Qed.
-
-(* a loop that has returned never comes back and never sends *)
-Lemma step_dead_stays c s e i a :
-  loop_is s i a false -> loop_is (fst (step c s e)) i a false.
-Proof.
-  unfold loop_is. intros Hl. destruct (is_wake_of i e) eqn:E.
-  - destruct e; try discriminate. simpl in E. apply Nat.eqb_eq in E. subst i0.
-    simpl. unfold wake. rewrite Hl. simpl. exact Hl.
-  - apply step_loop_kept; auto.
-Qed.
-
-Lemma wake_dead_silent c s i a : loop_is s i a false -> step c s (Wake i) = (s, []).
-Proof. unfold loop_is. intros Hl. simpl. unfold wake. rewrite Hl. reflexivity. Qed.
 
 (* ---------------------------------------------------------------- *)
-(* C13_stop_undone *)
+(* confinement, one step, any state, the public API included *)
 
-Lemma stop_wake_restores c s i a :
-  loop_is s i a true -> closed s = false -> hunted s (amac a) = false ->
-  step c s (Wake i) = (set_loops s (kill i (loops s)), [restore c (amac a)]).
+Lemma send_out s i s' out f :
+  send s i = (s', out) -> In f out ->
+  exists lp cont, nth_error (loops s) i = Some lp /\ lpc lp = PSend f cont.
 Proof.
-  unfold loop_is. intros Hl Hc Hh. simpl. unfold wake. rewrite Hl. simpl.
-  apply hunt_find_none in Hh. rewrite Hh, Hc. reflexivity.
+  unfold send. intros H Hin. destruct (nth_error (loops s) i) as [lp|] eqn:Hl; [|inversion H; subst; contradiction].
+  destruct (lpc lp) eqn:Hp; try (inversion H; subst; contradiction).
+  destruct (wr s f0) as [[s1 o] ok] eqn:E. inversion H; subst.
+  pose proof (wr_out _ _ _ _ _ _ E Hin). subst. eauto.
 Qed.
 
-(* while its MAC is hunted (and the handler open) a running loop announces to its own MAC and keeps running *)
-Lemma hunted_wake_announces c s i a :
-  loop_is s i a true -> closed s = false -> hunted s (amac a) = true ->
-  step c s (Wake i) = (s, [announce c (amac a)]).
+Ltac apiout Hs Hin :=
+  let E := fresh "E" in
+  pose proof (f_equal snd Hs) as E; cbn [snd] in E; rewrite <- E in Hin; apply wr2_out in Hin; subst.
+
+Theorem confined_step : forall c s e s' out f,
+  cfg_ok c -> step c s e = (s', out) -> In f out -> forged c f = true ->
+  caller_forged c e = true \/
+  hunted s (fedst f) = true \/
+  (exists i lp, e = Send i /\ nth_error (loops s) i = Some lp /\ armed_pc c (fedst f) (lpc lp) = true).
 Proof.
-  unfold loop_is, hunted. intros Hl Hc Hh. simpl. unfold wake. rewrite Hl. simpl.
-  destruct (hunt_find (amac a) (hunt s)) as [t|] eqn:Hf.
-  - apply hunt_find_some in Hf as [_ Hf]. rewrite Hc, Hf. reflexivity.
-  - apply hunt_find_none in Hf. congruence.
+  intros c s e s' out f Hc Hs Hin Hf.
+  destruct e; simpl in Hs; simpl caller_forged.
+  - unfold start_hunt in Hs. destruct (hunt_has _ _); inversion Hs; subst; contradiction.
+  - inversion Hs; subst; contradiction.
+  - inversion Hs; subst; contradiction.
+  - inversion Hs; subst; contradiction.
+  - unfold lookup in Hs. destruct (nth_error _ _) as [lp|]; [destruct (lpc lp)|]; inversion Hs; subst; contradiction.
+  - unfold check in Hs. destruct (nth_error _ _) as [lp|]; [destruct (lpc lp)|]; inversion Hs; subst; contradiction.
+  - destruct (send_out _ _ _ _ _ Hs Hin) as [lp [cont [Hl Hp]]].
+    right; right. exists i, lp. repeat split; auto. rewrite Hp. simpl. rewrite Hf, N.eqb_refl. reflexivity.
+  - right; left. apply (rx_arp_confined c s p f); auto. rewrite Hs. exact Hin.
+  - destruct (rx_raw_cases c s ethertype payload) as [E|[p E]]; simpl in E; rewrite E in Hs.
+    + inversion Hs; subst; contradiction.
+    + right; left. apply (rx_arp_confined c s p f); auto. rewrite Hs. exact Hin.
+  - inversion Hs; subst; contradiction.
+  - inversion Hs; subst; contradiction.
+  - apiout Hs Hin.
+    rewrite request_to_not_forged in Hf by auto. discriminate.
+  - apiout Hs Hin.
+    rewrite request_to_not_forged in Hf by auto. discriminate.
+  - apiout Hs Hin.
+    rewrite probe_frame_not_forged in Hf by auto. discriminate.
+  - apiout Hs Hin.
+    left. unfold forged, announce_ip in Hf. simpl in Hf. apply andb_true_iff in Hf. tauto.
+  - apiout Hs Hin. left. exact Hf.
+  - apiout Hs Hin. left. exact Hf.
+  - destruct (scan_go_spec c (scan_ips c) s) as [H0 _]. rewrite Hs in H0. destruct (H0 f Hin) as [ip ->].
+    rewrite request_to_not_forged in Hf by auto. discriminate.
+  - destruct (whois_go_spec c ip (Nat.min tries 3) s) as [H0 _]. rewrite Hs in H0. rewrite (H0 f Hin) in Hf.
+    rewrite request_to_not_forged in Hf by auto. discriminate.
 Qed.
 
-Definition stop_inv (i : nat) (a : addr) (s : state) : Prop :=
-  loop_is s i a true /\ closed s = false /\ hunted s (amac a) = false.
-
-Definition stop_ok (i : nat) (m : mac) (e : event) : bool :=
-  negb (is_wake_of i e) && negb (is_close e) && negb (is_start_of m e).
-
-Lemma stop_inv_step c i a s e :
-  stop_inv i a s -> stop_ok i (amac a) e = true -> stop_inv i a (fst (step c s e)).
+(* which public calls can forge at all, and exactly when *)
+Theorem api_forges_iff : forall c s e f,
+  cfg_ok c -> is_api_send e = true -> In f (snd (step c s e)) ->
+  (forged c f = true <-> caller_forged c e = true).
 Proof.
-  unfold stop_inv, stop_ok, loop_is. intros [H1 [H2 H3]] Hok.
-  apply andb_true_iff in Hok as [Hok Hs]. apply andb_true_iff in Hok as [Hw Hcl].
-  apply negb_true_iff in Hw, Hcl, Hs.
-  split; [apply step_loop_kept; auto|]. split; [rewrite step_closed; auto|].
-  apply step_unhunted; auto.
-Qed.
-
-Lemma none_of_and3 i m evs :
-  none_of (is_wake_of i) evs -> none_of is_close evs -> none_of (is_start_of m) evs ->
-  forallb (stop_ok i m) evs = true.
-Proof.
-  unfold none_of, stop_ok. induction evs as [|e r IH]; simpl; auto.
-  intros H1 H2 H3. apply andb_true_iff in H1 as [A1 B1]. apply andb_true_iff in H2 as [A2 B2].
-  apply andb_true_iff in H3 as [A3 B3]. rewrite A1, A2, A3. simpl. auto.
-Qed.
-
-Theorem stop_undone : forall c s0 a i mid post,
-  cfg_ok c ->
-  loop_is s0 i a true -> closed s0 = false ->
-  none_of (is_wake_of i) mid -> none_of is_close mid -> none_of (is_start_of (amac a)) mid ->
-  none_of (is_start_of (amac a)) post ->
-  let s1 := final c s0 (StopHunt (amac a) :: mid) in
-  let s2 := set_loops s1 (kill i (loops s1)) in
-  step c s1 (Wake i) = (s2, [restore c (amac a)]) /\
-  loop_is s2 i a false /\
-  forall s e out f, In (s, e, out) (trace c s2 post) -> In f out -> forged c f = true ->
-    fedst f <> amac a.
-Proof.
-  intros c s0 a i mid post Hc Hl Hcl Hw Hclose Hst Hpost s1 s2.
-  assert (Hinv : stop_inv i a s1).
-  { unfold s1. simpl. apply (final_inv (stop_inv i a) (stop_ok i (amac a)) c).
-    - intros s e. apply stop_inv_step.
-    - unfold stop_inv, loop_is, hunted. simpl. split; auto. split; auto. apply hunt_has_del_same.
-    - apply none_of_and3; auto. }
-  destruct Hinv as [I1 [I2 I3]].
-  split; [apply stop_wake_restores; auto|].
-  split; [unfold s2, loop_is; simpl; apply (kill_same _ _ _ I1)|].
-  intros s e out f Hin Hf Hfo Heq.
-  assert (Hun : hunted s (amac a) = false).
-  { apply (trace_inv (fun s => hunted s (amac a) = false) (fun e => negb (is_start_of (amac a) e)) c)
-      with (evs := post) (s := s2) (x := (s, e, out)).
-    - intros s' e' Hs' He'. apply step_unhunted; auto. apply negb_true_iff in He'. exact He'.
-    - exact I3.
-    - exact Hpost.
-    - exact Hin. }
-  assert (Hh : hunted s (fedst f) = true).
-  { apply trace_in in Hin as [s' Hs']. simpl in Hs'. eapply confined_step; eauto. }
-  rewrite Heq in Hh. congruence.
-Qed.
-
-Definition wit_m2 : mac := 2199023255554.
-
-(* non-vacuity, on the history that defeated the code before the repair of #27: two hunted MACs with the
-   same IPv4 address; the stopped one is restored at its loop's next wake-up, the other keeps being spoofed *)
-Example stop_undone_nonvacuous :
-  let c := wit_cfg in
-  let a := mkAddr wit_m1 3232235522 in
-  let s0 := final c init_state [StartHunt a; Wake 0; StartHunt (mkAddr wit_m2 3232235522); Wake 1] in
-  let mid := [RxArp (mkPkt 1 wit_m1 wit_m1 3232235522 0 3232235531); Wake 1] in
-  loop_is s0 0 a true /\ closed s0 = false /\
-  none_of (is_wake_of 0) mid /\ none_of is_close mid /\ none_of (is_start_of (amac a)) mid /\
-  outputs c s0 (StopHunt (amac a) :: mid ++ [Wake 0; Wake 0; Wake 1]) =
-    [[]; []; [announce c wit_m2]; [restore c wit_m1]; []; [announce c wit_m2]].
-Proof. vm_compute. repeat split; reflexivity. Qed.
-
-(* ---------------------------------------------------------------- *)
-(* C13_close_stops *)
-
-Theorem close_wake_silent : forall c s i,
-  closed s = true ->
-  snd (step c s (Wake i)) = [] /\
-  forall lp, nth_error (loops (fst (step c s (Wake i)))) i = Some lp -> alive lp = false.
-Proof.
-  intros c s i Hc. simpl. unfold wake.
-  destruct (nth_error (loops s) i) as [lp|] eqn:Hl.
-  - destruct (alive lp) eqn:Ha; simpl.
-    + destruct (hunt_find _ _); rewrite Hc; simpl; (split; [reflexivity|]);
-        intros lp' H; simpl in H; rewrite (kill_same _ _ _ Hl) in H; inversion H; reflexivity.
-    + split; auto. intros lp' H. simpl in H. rewrite Hl in H. inversion H; subst. auto.
-  - split; auto. intros lp' H. simpl in H. rewrite Hl in H. discriminate.
-Qed.
-
-Lemma closed_after_close c s pre : closed (final c s (pre ++ [Close])) = true.
-Proof. rewrite final_app. reflexivity. Qed.
-
-Lemma closed_along c s evs x : closed s = true -> In x (trace c s evs) -> closed (fst (fst x)) = true.
-Proof.
-  intros Hc Hin.
-  apply (trace_inv (fun s => closed s = true) (fun _ => true) c) with (evs := evs) (s := s); auto.
-  - intros s' e Hs _. apply step_closed_mono; auto.
-  - apply forallb_forall. auto.
-Qed.
-
-(* every run, every Wake after a Close: silent, and that loop has returned *)
-Theorem close_stops_loops : forall c pre post s i out,
-  In (s, Wake i, out) (trace c (final c init_state (pre ++ [Close])) post) ->
-  out = [] /\
-  forall lp, nth_error (loops (fst (step c s (Wake i)))) i = Some lp -> alive lp = false.
-Proof.
-  intros c pre post s i out Hin.
-  assert (Hc : closed s = true).
-  { apply (closed_along c (final c init_state (pre ++ [Close])) post (s, Wake i, out)); auto. apply closed_after_close. }
-  destruct (close_wake_silent c s i Hc) as [H1 H2].
-  apply trace_in in Hin as [s' Hs]. cbn [fst snd] in Hs. split; auto.
-  rewrite Hs in H1. exact H1.
-Qed.
-
-(* full strength: after Close NOTHING is emitted by any event (any state) *)
-Lemma closed_silent c s e : closed s = true -> snd (step c s e) = [].
-Proof.
-  intros Hc. destruct e; simpl; auto.
-  - unfold start_hunt. destruct (hunt_has _ _); auto.
-  - apply (close_wake_silent c s i Hc).
-  - unfold rx_arp. rewrite Hc. reflexivity.
-Qed.
-
-Theorem close_stops : forall c pre post s e out,
-  In (s, e, out) (trace c (final c init_state (pre ++ [Close])) post) ->
-  out = [] /\
-  forall i lp, e = Wake i -> nth_error (loops (fst (step c s e))) i = Some lp -> alive lp = false.
-Proof.
-  intros c pre post s e out Hin.
-  assert (Hc : closed s = true).
-  { apply (closed_along c (final c init_state (pre ++ [Close])) post (s, e, out)); auto. apply closed_after_close. }
-  split.
-  - apply trace_in in Hin as [s' Hs]. cbn [fst snd] in Hs.
-    pose proof (closed_silent c s e Hc) as H. rewrite Hs in H. exact H.
-  - intros i lp He. subst e. apply (close_wake_silent c s i Hc).
-Qed.
-
-Example close_stops_nonvacuous :
-  let c := wit_cfg in
-  outputs c init_state [StartHunt (mkAddr wit_m1 3232235522); Wake 0; Close; Wake 0; Wake 0;
-                        RxArp (mkPkt 1 wit_m1 wit_m1 3232235522 0 3232235531)] =
-    [[]; [announce c wit_m1]; []; []; []; []] /\
-  loop_is (final c init_state [StartHunt (mkAddr wit_m1 3232235522); Wake 0; Close; Wake 0]) 0
-          (mkAddr wit_m1 3232235522) false.
-Proof. vm_compute. split; reflexivity. Qed.
-
-(* ---------------------------------------------------------------- *)
-(* "periodically while hunted": while the handler is open every hunted MAC has a running loop of its own *)
-
-Definition covered (s : state) : Prop :=
-  closed s = false -> forall m, hunted s m = true -> exists i a, loop_is s i a true /\ amac a = m.
-
-Lemma covered_step c s e : covered s -> covered (fst (step c s e)).
-Proof.
-  intros Hcov Hc' m Hm.
-  assert (Hc : closed s = false).
-  { destruct (closed s) eqn:E; auto. rewrite (step_closed_mono c s e E) in Hc'. discriminate. }
-  specialize (Hcov Hc).
-  destruct e; simpl in *.
-  - (* StartHunt *)
-    unfold start_hunt in *. destruct (hunt_has (amac a) (hunt s)) eqn:Hh; simpl in *; [apply Hcov; exact Hm|].
-    unfold hunted in Hm. simpl in Hm. rewrite hunt_has_app in Hm. apply orb_true_iff in Hm as [Hm|Hm].
-    + destruct (Hcov m Hm) as [i [a0 [Hl Ha]]]. exists i, a0. split; auto.
-      unfold loop_is in *. simpl. apply nth_error_app_l. exact Hl.
-    + exists (List.length (loops s)), a. split; [|lia].
-      unfold loop_is. simpl. rewrite nth_error_app2 by lia. rewrite Nat.sub_diag. reflexivity.
-  - apply Hcov; exact Hm.
-  - (* StopHunt *)
-    unfold hunted in Hm. simpl in Hm.
-    assert (Hm' : hunt_has m (hunt s) = true).
-    { destruct (N.eq_dec m m0) as [->|Hne]; [rewrite hunt_has_del_same in Hm; discriminate|].
-      rewrite hunt_has_del_other in Hm; auto. }
-    destruct (Hcov m Hm') as [i [a0 [Hl Ha]]]. exists i, a0. split; auto.
-  - discriminate.
-  - (* Wake *)
-    unfold hunted in Hm. rewrite wake_hunt in Hm.
-    destruct (Hcov m Hm) as [j [a0 [Hl Ha]]]. exists j, a0. split; auto.
-    destruct (Nat.eq_dec i j) as [->|Hne].
-    + assert (Hst : step c s (Wake j) = (s, [announce c (amac a0)])).
-      { apply hunted_wake_announces; auto. rewrite Ha. exact Hm. }
-      simpl in Hst. rewrite Hst. exact Hl.
-    + unfold loop_is. rewrite wake_loops_other by auto. exact Hl.
-  - rewrite rx_state in *. apply Hcov; exact Hm.
-  - apply Hcov; exact Hm.
-Qed.
-
-Theorem hunted_has_loop : forall c evs m,
-  let s := final c init_state evs in
-  closed s = false -> hunted s m = true ->
-  exists i a, loop_is s i a true /\ amac a = m /\ step c s (Wake i) = (s, [announce c m]).
-Proof.
-  intros c evs m s Hc Hm.
-  assert (Hcov : covered s).
-  { unfold s. apply (final_inv covered (fun _ => true) c).
-    - intros s' e H _. apply covered_step; auto.
-    - intros _ m' H'. discriminate.
-    - apply forallb_forall. auto. }
-  destruct (Hcov Hc m Hm) as [i [a [Hl Ha]]]. exists i, a. split; auto. split; auto.
-  rewrite <- Ha. apply hunted_wake_announces; auto. rewrite Ha. exact Hm.
+  intros c s e f Hc Ha Hin. split.
+  - intros Hf. destruct (step c s e) as [s' out] eqn:Hs.
+    destruct (confined_step c s e s' out f Hc Hs Hin Hf) as [H|[H|[i [lp [H _]]]]]; auto.
+    + destruct e; try discriminate; simpl in *.
+      * apiout Hs Hin.
+        rewrite request_to_not_forged in Hf by auto. discriminate.
+      * apiout Hs Hin.
+        rewrite request_to_not_forged in Hf by auto. discriminate.
+      * apiout Hs Hin.
+        rewrite probe_frame_not_forged in Hf by auto. discriminate.
+      * apiout Hs Hin.
+        unfold forged, announce_ip in Hf. simpl in Hf. apply andb_true_iff in Hf. tauto.
+      * apiout Hs Hin. exact Hf.
+      * apiout Hs Hin. exact Hf.
+      * destruct (scan_go_spec c (scan_ips c) s) as [H0 _]. rewrite Hs in H0. destruct (H0 f Hin) as [ip ->].
+        rewrite request_to_not_forged in Hf by auto. discriminate.
+      * destruct (whois_go_spec c ip (Nat.min tries 3) s) as [H0 _]. rewrite Hs in H0. rewrite (H0 f Hin) in Hf.
+        rewrite request_to_not_forged in Hf by auto. discriminate.
+    + subst e. discriminate.
+  - intros Hcf. destruct e; try discriminate; simpl in *.
+    + apply wr2_out in Hin. subst f. unfold forged, announce_ip. simpl. rewrite Hcf, N.eqb_refl. reflexivity.
+    + apply wr2_out in Hin. subst f. exact Hcf.
+    + apply wr2_out in Hin. subst f. exact Hcf.
 Qed.
